@@ -10,7 +10,8 @@ import z3
 
 from engine import contexts
 from engine.common import Report, Ob, REPO, func_source_info
-from engine.pyvc import Explorer, Interp, State
+import z3
+from engine.pyvc import Explorer, Interp, State, sint, cur
 from engine.symcoll import Opaque
 from props._util import section
 
@@ -83,14 +84,48 @@ def run():
             ok = len(got) == len(zs) and all(_same(float(got[i]), float(call([preset, np.array([i])])[0])) for i in range(len(zs)))
             rep.add(Ob(id="radii.%s.elementwise" % preset, status="proved" if ok else "refuted", backend="exact-evaluation", func=FN, kind="exact"))
 
+    class CustomRadii(Opaque):
+        """a caller's own radii array: nothing but its (symbolic) length can be observed"""
+
+        def _len(self):
+            st = cur()
+            if "custom_len" not in st.ghost:
+                n = sint("n_custom_radii")
+                st.assume(n.t >= 0)
+                st.ghost["custom_len"] = n
+            return st.ghost["custom_len"]
+
+    def identity(oid, mkargs):
+        """every path of get_radii(custom, ...) returns the very same object - for every length of the array"""
+        ex = Explorer(FN)
+        tok = CustomRadii("custom-radii")
+
+        def thunk(st):
+            return Interp(st).run_func(f, mkargs(tok), {})
+
+        bad = []
+        lens = []
+        for kind, v, st in ex.explore(thunk):
+            if kind == "raise":
+                bad.append("raises %s: %s" % (type(v).__name__, v))
+            elif v is not tok:
+                n = st.ghost.get("custom_len")
+                wit = ""
+                if n is not None:
+                    sv = z3.Solver()
+                    sv.set("timeout", 3000)
+                    sv.add(st.pc)
+                    if sv.check() == z3.sat:
+                        wit = " (array length %s)" % sv.model().eval(n.t, model_completion=True)
+                        lens.append(int(str(sv.model().eval(n.t, model_completion=True))))
+                bad.append("custom array is not returned unchanged%s: %r" % (wit, v))
+        rep.add(Ob(id=oid, status="proved" if not bad else "refuted", backend="pyvc", func=FN, kind="vc", detail="; ".join(bad)[:600],
+                   witness={"custom": True, "lengths": lens}))
+
     def custom():
-        # non-string radii are returned unchanged (the same object), whatever the atomic numbers
-        tok = Opaque("custom-radii")
-        r = call([tok, Opaque("numbers")])
-        rep.add(Ob(id="radii.custom.identity", status="proved" if r is tok else "refuted", backend="pyvc", func=FN, kind="vc",
-                   detail="" if r is tok else "custom array is not returned unchanged"))
-        r2 = call([tok])
-        rep.add(Ob(id="radii.custom.identity-no-numbers", status="proved" if r2 is tok else "refuted", backend="pyvc", func=FN, kind="vc"))
+        # non-string radii are returned unchanged (the same object), whatever the atomic numbers and whatever the length
+        identity("radii.custom.identity", lambda tok: [tok, Opaque("numbers")])
+        identity("radii.custom.identity-no-numbers", lambda tok: [tok])
         arr = np.array([0.31, 1.7, 2.2])
         r3 = call([arr, np.array([5, 1, 1])])
         rep.add(Ob(id="radii.custom.array-unchanged", status="proved" if (r3 is arr and (arr == np.array([0.31, 1.7, 2.2])).all()) else "refuted",
@@ -178,6 +213,20 @@ def replay(ob):
         rng = np.random.default_rng(3)
         from matid.clustering import SBC
         bad = []
+        # a custom array comes back unchanged whatever its length (the verifier's lengths first, then lengths of the internal tables)
+        for n in list(w.get("lengths") or []) + [1, 7, len(covalent_radii), len(vdw_radii)]:
+            if not (0 < n <= 400):
+                continue
+            custom = rng.uniform(0.3, 2.0, size=n)
+            Z = rng.integers(1, 84, size=n)
+            try:
+                got = g.get_radii(custom.copy(), Z)
+                if not (np.shape(got) == custom.shape and np.array_equal(np.asarray(got), custom)):
+                    bad.append(("get_radii(custom array of %d values, atomic numbers) does not return the array unchanged" % n, np.asarray(got)[:4].tolist(), custom[:4].tolist()))
+            except Exception as e:  # noqa
+                bad.append(("get_radii(custom array of %d values)" % n, "%s: %s" % (type(e).__name__, e)))
+        if bad:
+            return {"reproduced": True, "failing_inputs": bad[:3]}
         for trial in range(6):
             n = 6
             for preset in ("covalent", "vdw", "vdw_covalent"):
